@@ -137,12 +137,22 @@ def Ty.toks : Ty → List Tok
 /-- source text of an integer: decimal, `-` for negatives -/
 def intSrc (v : Int) : Str := intStr v
 
+/-- raw text of a quoted string with the value `v`: `"` `\` LF CR are written as escapes -/
+def escapeStr : Str → Str
+  | [] => []
+  | c :: r =>
+    if c == 34 then 92 :: 34 :: escapeStr r
+    else if c == 92 then 92 :: 92 :: escapeStr r
+    else if c == 10 then 92 :: 110 :: escapeStr r
+    else if c == 13 then 92 :: 114 :: escapeStr r
+    else c :: escapeStr r
+
 mutual
 def Value.toks : Value → List Tok
   | .var n => [.punct .dollar, .name n]
   | .int v => [.int (intSrc v)]
   | .float s => [.float s]
-  | .str v => [.str v]
+  | .str v => [.str (escapeStr v)]
   | .bool b => [.name (if b then kwTrue else kwFalse)]
   | .null => [.name kwNull]
   | .enum n => [.name n]
@@ -169,13 +179,14 @@ def dirsToks : List Dir → List Tok
 
 def descToks : Option Str → List Tok
   | none => []
-  | some d => [.str d]
+  | some d => [.str (escapeStr d)]
+
+def defaultToks : Option Value → List Tok
+  | some d => .punct .eq :: d.toks
+  | none => []
 
 def InputVal.toks (v : InputVal) : List Tok :=
-  descToks v.desc ++ .name v.name :: .punct .colon :: v.ty.toks ++
-    (match v.default with
-     | some d => .punct .eq :: d.toks
-     | none => []) ++ dirsToks v.dirs
+  descToks v.desc ++ .name v.name :: .punct .colon :: v.ty.toks ++ defaultToks v.default ++ dirsToks v.dirs
 
 def inputValsToks : List InputVal → List Tok
   | [] => []
